@@ -85,7 +85,7 @@ def run_op(op, s1, s2):
     kw = op.get("kw", {})
     t0 = time.time()
     signal.signal(signal.SIGALRM, _alarm)
-    signal.alarm(int(op.get("timeout", 20)))
+    signal.alarm(int(op.get("timeout", 60)))
     try:
         if name == "gjk_jolt":
             d, a, b, simplex = gjk.gjk_distance_jolt(c1, c2, **kw)
@@ -151,8 +151,46 @@ def run_op(op, s1, s2):
     return out
 
 
+WARM1 = dict(kind="sphere", center=[0.0, 0.0, 0.0], radius=1.0)
+WARM2 = dict(kind="box", pose=[[1.0, 0.0, 0.0, 3.0], [0.0, 1.0, 0.0, 0.2], [0.0, 0.0, 1.0, 0.1], [0.0, 0.0, 0.0, 1.0]],
+             size=[1.0, 1.0, 1.0])
+WARM3 = dict(kind="box", pose=[[1.0, 0.0, 0.0, 0.6], [0.0, 1.0, 0.0, 0.2], [0.0, 0.0, 1.0, 0.1], [0.0, 0.0, 0.0, 1.0]],
+             size=[1.0, 1.0, 1.0])
+
+
+def warm_up(cases):
+    """Compile (or load from the numba cache) everything the requested operations need BEFORE any
+    per-call time limit applies: a cold cache (fresh checkout, changed source file) costs tens of
+    seconds per function and must never be mistaken for a hanging query."""
+    done = set()
+    for case in cases:
+        for op in case["ops"]:
+            if op["fn"] in done:
+                continue
+            done.add(op["fn"])
+            for other in (WARM2, WARM3):
+                try:
+                    run_op(dict(op, timeout=0), WARM1, other)
+                except BaseException:  # noqa
+                    pass
+    kinds = set()
+    for case in cases:
+        for spec in (case["c1"], case["c2"]):
+            k = (spec["kind"], "margin" in spec)
+            if k in kinds:
+                continue
+            kinds.add(k)
+            try:
+                c = build(spec)
+                c.support_function(np.array([0.3, -0.5, 0.8]))
+                c.aabb()
+            except BaseException:  # noqa
+                pass
+
+
 def main():
     payload = json.load(open(sys.argv[1]))
+    warm_up(payload["cases"])
     res = []
     for case in payload["cases"]:
         r = []
